@@ -45,7 +45,7 @@ ALL_FAULTS = ca.CONN_FAULTS + ca.MSG_FAULTS
 def configs(tier):
     out = []
     for i in range(8):
-        out.append({"spake": "real" if i == 0 else "stub",
+        out.append({"spake": "real" if i == 0 else "stub", "reentrant": i % 3 == 1,
                     "dilate": i % 4 == 3, "dilate_listen": i == 7,
                     "reorder_heavy": i % 2 == 1,
                     "fault_initial": i == 6,
